@@ -302,9 +302,23 @@ fn oneof_class(variants: &[Value], value: Option<&Value>, defs: &Defs, depth: u3
     }
     if !objs.is_empty() && objs.len() == variants.len() {
         // a tag: present everywhere with a single-valued string enum
+        let n_tags = objs[0]
+            .keys()
+            .filter(|k| objs.iter().all(|p| p.get(*k).and_then(single_string_enum).is_some()))
+            .count();
         let tag = objs[0]
             .keys()
             .find(|k| objs.iter().all(|p| p.get(*k).and_then(single_string_enum).is_some()));
+        if let (Some(tag), true) = (tag, n_tags >= 2) {
+            // two or more properties qualify as the tag: typify picks the first
+            // in name order, the others stay as constant-valued members
+            let known = value
+                .and_then(|v| v.get(tag.as_str()))
+                .and_then(|t| t.as_str())
+                .map(|t| objs.iter().any(|p| p.get(tag).and_then(single_string_enum) == Some(t)))
+                .unwrap_or(false);
+            return format!("oneOf:internal-multi-tag:{}", if known { "struct" } else { "unknown-variant" });
+        }
         if let Some(tag) = tag {
             let mut others: BTreeSet<&String> = BTreeSet::new();
             for p in &objs {
